@@ -1220,6 +1220,73 @@ pub mod vx_ids {
         reveal(ins_post);
     }
 
+    /// invariant of the rebuild loop (`for i in lo..hi`), packed; `gi` is the loop index, `r` the replacement
+    #[verifier::opaque]
+    pub open spec fn inv2<T: Merge>(o: Seq<Ent<T>>, lo: int, hi: int, range: Range<u32>, value: T, gi: int, cursor: u32, r: Seq<Ent<T>>) -> bool {
+        &&& win(o, lo, hi, range)
+        &&& value.wf()
+        &&& lo <= gi <= hi
+        &&& (gi == lo ==> cursor == win_lo(o, lo, range))
+        &&& (gi > lo ==> cursor == o[gi - 1].0.end)
+        &&& finv(o, range, value, win_lo(o, lo, range), r, cursor as int)
+    }
+
+    pub proof fn lemma_inv2_init<T: Merge>(o: Seq<Ent<T>>, lo: int, hi: int, range: Range<u32>, value: T, cursor: u32, r: Seq<Ent<T>>)
+        requires
+            win(o, lo, hi, range),
+            value.wf(),
+            lo < hi,
+            cursor == win_lo(o, lo, range),
+            r.len() == 0,
+        ensures
+            inv2(o, lo, hi, range, value, lo, cursor, r),
+    {
+        reveal(inv2);
+        lemma_finv_init(o, range, value, win_lo(o, lo, range), r);
+    }
+
+    pub proof fn lemma_inv2_elim<T: Merge>(o: Seq<Ent<T>>, lo: int, hi: int, range: Range<u32>, value: T, gi: int, cursor: u32, r: Seq<Ent<T>>)
+        requires
+            inv2(o, lo, hi, range, value, gi, cursor, r),
+        ensures
+            win(o, lo, hi, range),
+            lo <= gi <= hi,
+            cursor == (if gi == lo { win_lo(o, lo, range) } else { o[gi - 1].0.end as int }),
+            finv(o, range, value, win_lo(o, lo, range), r, cursor as int),
+            canon(r),
+            r.len() > 0 ==> r.last().0.end <= cursor,
+    {
+        reveal(inv2);
+        lemma_finv_pre(o, range, value, win_lo(o, lo, range), r, cursor as int);
+    }
+
+    pub proof fn lemma_inv2_next<T: Merge>(o: Seq<Ent<T>>, lo: int, hi: int, range: Range<u32>, value: T, gi: int, cursor: u32, r: Seq<Ent<T>>)
+        requires
+            win(o, lo, hi, range),
+            value.wf(),
+            lo <= gi < hi,
+            cursor == o[gi].0.end,
+            finv(o, range, value, win_lo(o, lo, range), r, cursor as int),
+        ensures
+            inv2(o, lo, hi, range, value, gi + 1, cursor, r),
+    {
+        reveal(inv2);
+    }
+
+    pub proof fn lemma_inv2_exit<T: Merge>(o: Seq<Ent<T>>, lo: int, hi: int, range: Range<u32>, value: T, cursor: u32, r: Seq<Ent<T>>)
+        requires
+            inv2(o, lo, hi, range, value, hi, cursor, r),
+            lo < hi,
+        ensures
+            cursor == o[hi - 1].0.end,
+            finv(o, range, value, win_lo(o, lo, range), r, o[hi - 1].0.end as int),
+            canon(r),
+            r.len() > 0 ==> r.last().0.end <= cursor,
+    {
+        reveal(inv2);
+        lemma_finv_pre(o, range, value, win_lo(o, lo, range), r, cursor as int);
+    }
+
     /// in a canonical sequence two neighbours that touch have different values: the seam-coalescing branches
     /// of `insert_with` are unreachable
     pub proof fn lemma_no_coalesce<T: Merge>(s: Seq<Ent<T>>, k: int)
@@ -1305,7 +1372,7 @@ pub mod vx_ids {
             proof { lemma_post_elim(o, range, value, self.0@); }
         @before 1 `stmt:for`
             let ghost mut gi: int = lo as int;
-            proof { lemma_finv_init(o, range, value, win_lo(o, lo as int, range), replacement@); }
+            proof { lemma_inv2_init(o, lo as int, hi as int, range, value, cursor, replacement@); }
         @loop 2 iter=it2
             invariant
                 it2.index@ == gi - lo,
@@ -1314,21 +1381,16 @@ pub mod vx_ids {
                 self.0@ == o,
                 lo < hi <= o.len(),
                 range.start < range.end,
-                win(o, lo as int, hi as int, range),
                 value.wf(),
                 new_start == range.start,
                 new_end == range.end,
-                lo <= i <= hi,
-                lo <= gi <= hi,
-                gi == lo ==> cursor == win_lo(o, lo as int, range),
-                gi > lo ==> cursor == o[gi - 1].0.end,
-                finv(o, range, value, win_lo(o, lo as int, range), replacement@, cursor as int),
+                inv2(o, lo as int, hi as int, range, value, gi, cursor, replacement@),
         @after 1 `stmt:let entry_range`
             let ghost g0 = replacement@;
             proof {
+                lemma_inv2_elim(o, lo as int, hi as int, range, value, gi, cursor, g0);
                 assert(*entry_range == o[i as int].0 && *entry_value == o[i as int].1);
                 lemma_win_facts(o, lo as int, hi as int, range, i as int);
-                lemma_finv_pre(o, range, value, win_lo(o, lo as int, range), g0, cursor as int);
             }
         @after 1 `stmt:call push_coalesced`
             proof { assert(pushed(g0, replacement@, cursor..umin(entry_range.start, new_end), value)) by { reveal(pushed); } }
@@ -1358,12 +1420,15 @@ pub mod vx_ids {
             let ghost g4 = replacement@;
             proof { lemma_step_suffix(o, lo as int, hi as int, range, value, i as int, g3, g4); }
         @after 1 `stmt:assign cursor`
-            proof { gi = gi + 1; }
+            proof {
+                lemma_inv2_next(o, lo as int, hi as int, range, value, gi, cursor, replacement@);
+                gi = gi + 1;
+            }
         @after 1 `stmt:for`
             let ghost h0 = replacement@;
             proof {
                 assert(gi == hi);
-                lemma_finv_pre(o, range, value, win_lo(o, lo as int, range), h0, cursor as int);
+                lemma_inv2_exit(o, lo as int, hi as int, range, value, cursor, h0);
             }
         @after 5 `stmt:call push_coalesced`
             proof { assert(pushed(h0, replacement@, cursor..new_end, value)) by { reveal(pushed); } }
